@@ -36,6 +36,7 @@ type Executor struct {
 	LoopObls  []*LoopObligation
 	UsedEnv   map[string]bool
 	Inlined   map[string]bool
+	Entered   map[*ssa.BasicBlock]bool // blocks some explored path jumped into (coverage notes)
 	Summaries map[string]bool
 	fset      *token.FileSet
 
@@ -961,6 +962,10 @@ func (ex *Executor) enterBlock(st *State, fr *frame, from, b *ssa.BasicBlock) {
 	fr.prev = from
 	fr.block = b
 	fr.idx = len(phis)
+	if ex.Entered == nil {
+		ex.Entered = map[*ssa.BasicBlock]bool{}
+	}
+	ex.Entered[b] = true
 }
 
 func firstPos(b *ssa.BasicBlock) token.Pos {
